@@ -151,10 +151,10 @@ func init() {
 					sig, err = priv.Sign(rd, dig, sm2.NewSM2SignerOption(false, uid))
 				case "legacy_sign":
 					ints = true
-					r, s, err = sm2.Sign(rd, &priv.PrivateKey, dig)
+					r, s, err = sm2.Sign(rd, ecSlot(priv), dig)
 				case "legacy_signwithsm2":
 					ints = true
-					r, s, err = sm2.SignWithSM2(rd, &priv.PrivateKey, uid, msg)
+					r, s, err = sm2.SignWithSM2(rd, ecSlot(priv), uid, msg)
 				default:
 					panic("harness: sm2dsa: unknown sign entry " + st.Str("entry"))
 				}
@@ -184,6 +184,7 @@ func init() {
 				if err != nil {
 					return DiffErr(i, err, false)
 				}
+				pub = ecPubSlot(pub)
 				uid, msg, dig, sig := st.Hex("uid"), st.Hex("msg"), st.Hex("dig"), st.Hex("sig")
 				msg0, dig0, sig0 := append([]byte(nil), msg...), append([]byte(nil), dig...), append([]byte(nil), sig...)
 				var r, s *big.Int
@@ -229,6 +230,25 @@ func init() {
 		}
 		return soft
 	})
+}
+
+// An ecdsa.PrivateKey / ecdsa.PublicKey is plain caller-owned data: a caller may keep ONE struct for the life of the
+// process and load key after key into it.  The entry points that take these structs are therefore always called on the
+// same two addresses, whose contents are overwritten per call (nothing may be remembered per address).
+var (
+	ecPrivSlotV = new(ecdsa.PrivateKey)
+	ecPubSlotV  = new(ecdsa.PublicKey)
+)
+
+func ecSlot(k *sm2.PrivateKey) *ecdsa.PrivateKey {
+	ecPrivSlotV.PublicKey = ecdsa.PublicKey{Curve: k.Curve, X: k.X, Y: k.Y}
+	ecPrivSlotV.D = k.D
+	return ecPrivSlotV
+}
+
+func ecPubSlot(k *ecdsa.PublicKey) *ecdsa.PublicKey {
+	*ecPubSlotV = ecdsa.PublicKey{Curve: k.Curve, X: k.X, Y: k.Y}
+	return ecPubSlotV
 }
 
 func b2s(b bool) string {
